@@ -9,7 +9,9 @@ package vsched
 import (
 	"fmt"
 	"os"
+	"reflect"
 	"runtime"
+	"sort"
 	"strings"
 	"time"
 )
@@ -74,7 +76,8 @@ type Thread struct {
 	completed bool // pending op was completed by a rendezvous partner
 	res       opResult
 	done      bool
-	Library   bool // spawned from inside the code under test
+	Library   bool       // spawned from inside the code under test
+	held      []*muState // mutexes this thread holds (read or write), for the dynamic lockset check
 	// blockedOn describes the pending op at the end of the execution (for reports)
 }
 
@@ -120,6 +123,7 @@ type Sched struct {
 	Locals    map[string]any // per-execution storage for other packages (vsys, harness)
 	sysEpoch  int
 	Lockset   []string // guarded state touched without its mutex (lockset assertions)
+	touched   map[uintptr]*touchState
 }
 
 var cur *Sched
@@ -534,10 +538,12 @@ func (s *Sched) perform(t *Thread, o *op) opResult {
 	case KLock:
 		o.mu.w = true
 		o.mu.owner = t.ID
+		t.held = append(t.held, o.mu)
 		s.trace(t, "lock "+o.label)
 		return opResult{}
 	case KRLock:
 		o.mu.r++
+		t.held = append(t.held, o.mu)
 		s.trace(t, "rlock "+o.label)
 		return opResult{}
 	case KOnce:
@@ -645,3 +651,76 @@ func CurID() int {
 
 // PrefixLen is the number of prescribed choices of this execution.
 func (s *Sched) PrefixLen() int { return len(s.prefix) }
+
+// ---- dynamic lockset check (Eraser) for maps ----
+//
+// The typed instrumentation pass puts a Touch in front of every statement that
+// indexes, ranges over, deletes from or takes the length of a map. For every
+// map (by identity) the set of mutexes held at *every* access so far is
+// intersected; once two different threads have accessed the map and the
+// intersection is empty, there is no mutex that protects it: in a real
+// execution those accesses can race (Go would even abort with "concurrent map
+// iteration and map write"). Checked on every explored schedule.
+
+type touchState struct {
+	locks    map[*muState]bool
+	threads  map[int]string
+	first    string
+	reported bool
+}
+
+func (t *Thread) drop(m *muState) {
+	for i := len(t.held) - 1; i >= 0; i-- {
+		if t.held[i] == m {
+			t.held = append(t.held[:i], t.held[i+1:]...)
+			return
+		}
+	}
+}
+
+// Touch records an access to map m at source position where.
+func Touch(m any, where string) {
+	s := cur
+	if s == nil || s.aborting || s.ended || s.cur == nil {
+		return
+	}
+	v := reflect.ValueOf(m)
+	if !v.IsValid() || v.Kind() != reflect.Map || v.IsNil() {
+		return
+	}
+	key := v.Pointer()
+	if s.touched == nil {
+		s.touched = map[uintptr]*touchState{}
+	}
+	st := s.touched[key]
+	t := s.cur
+	if st == nil {
+		st = &touchState{locks: map[*muState]bool{}, threads: map[int]string{}, first: where}
+		for _, h := range t.held {
+			st.locks[h] = true
+		}
+		s.touched[key] = st
+	} else {
+		for l := range st.locks {
+			still := false
+			for _, h := range t.held {
+				if h == l {
+					still = true
+				}
+			}
+			if !still {
+				delete(st.locks, l)
+			}
+		}
+	}
+	st.threads[t.ID] = t.Name
+	if len(st.threads) >= 2 && len(st.locks) == 0 && !st.reported {
+		st.reported = true
+		var names []string
+		for _, n := range st.threads {
+			names = append(names, n)
+		}
+		sort.Strings(names)
+		s.Lockset = append(s.Lockset, fmt.Sprintf("%s accesses a map (first touched at %s) that threads %v use without a common mutex", where, st.first, names))
+	}
+}
